@@ -83,6 +83,12 @@ Agree == bad = ""
 FreshAgrees == fresh = ss
 
 View == <<stk, ss, d, bad, phase, curAllWs, refSig, fresh>>
+\* path covers: the abstract state remembers the last one / two tokens as well, so the transition cover of that
+\* graph contains every PAIR / TRIPLE of consecutive moves from every product state.  A change of the code that
+\* alters what one move does (without adding state the model has) shows only on particular paths into a state.
+LastLab(n) == [i \in 1..(IF Len(hist) < n THEN Len(hist) ELSE n) |-> hist[Len(hist) - (IF Len(hist) < n THEN Len(hist) ELSE n) + i].lab]
+View1 == <<stk, ss, d, bad, phase, curAllWs, refSig, fresh, LastLab(1)>>
+View2 == <<stk, ss, d, bad, phase, curAllWs, refSig, fresh, LastLab(2)>>
 
 Bound == d \in -2..2 /\ ss.level \in -3..(MaxDepth + 2) /\ ss.beginDepth <= MaxDepth + 1 /\ ss.inCase <= MaxDepth + 1
 
